@@ -139,6 +139,17 @@ def near_limit(ctx, kind="req", where="request-line", L=24, ncuts=1):
         line = b"T: " + pad(L - 3)
         data = start + b"\r\n" + host + b"Transfer-Encoding: chunked\r\n\r\n0\r\n" + line + b"\r\n\r\n"
         over = L > lim["max_field_size"]
+    elif where in ("folded-field", "folded-field-near", "folded-trailer"):
+        # obs-fold (accepted by the lax response parser only): one field over three lines, each of
+        # them within the limit; it is the field as a whole that must respect max_field_size
+        k = (L - 2) // 3 if where.endswith("near") else L // 2
+        lines3 = b"X: " + pad(k) + b"\r\n " + pad(k) + b"\r\n\t" + pad(k)
+        value_total = 3 * k + 2
+        if where == "folded-trailer":
+            data = start + b"\r\n" + host + b"Transfer-Encoding: chunked\r\n\r\n0\r\n" + lines3 + b"\r\n\r\n"
+        else:
+            data = start + b"\r\n" + host + lines3 + b"\r\n\r\n"
+        over = value_total > lim["max_field_size"]
     else:
         raise ValueError(where)
     cuts = H.cut_points(ctx, "cut", len(data), ncuts)
@@ -274,6 +285,10 @@ def jobs(tier):
                     L = L - 8
                 out.append(dict(name=f"{kind}-limit-{where}-{L}", func="near_limit",
                                 params=dict(kind=kind, where=where, L=L, ncuts=1), limits=lim))
+        if kind == "resp":
+            for where in ("folded-field", "folded-field-near", "folded-trailer"):
+                out.append(dict(name=f"resp-limit-{where}-32", func="near_limit",
+                                params=dict(kind="resp", where=where, L=32, ncuts=1), limits=lim))
         out.append(dict(name=f"{kind}-header-count", func="header_count", params=dict(kind=kind, k=3), limits=lim))
         for where in ("request-line", "field", "chunk-size", "chunk-ext", "trailer"):
             out.append(dict(name=f"{kind}-unterminated-{where}", func="unterminated",
@@ -308,5 +323,5 @@ def bounds(tier):
     return {"unterminated": "a line of 40 (quick) / 64 bytes without terminator in each syntactic position, delivered in 3 pieces at every pair of cut positions, limits symbolic in [28, 28+L/2]",
             "symbolic_streams": "2..4 bytes (quick) / 2..6 (thorough), all 256 values, one symbolic cut; chunked bodies 3 (quick) / 3..5",
             "templates": "C01 request templates and C03 response templates, 1-byte window at every offset, cut within 3 bytes of the window",
-            "near_limit": "line length L in {24} (quick) / {16,24,40}; max_line_size, max_field_size in [L-2,L+2], max_headers 1..8, every single cut",
+            "near_limit": "line length L in {32} (quick) / {24..48}; max_line_size, max_field_size in [L-2,L+2], max_headers 1..8, every single cut; response parser additionally: a field / trailer folded over three lines (obs-fold) of L/2 or (L-2)/3 bytes each",
             "yarl": YARL_HOSTILE}
